@@ -19,6 +19,7 @@ def partition_wire(wire, partition_size):
 
     The `wire`'s bitwidth must be evenly divisible by `parition_size`.
     """
+    wire = pyrtl.as_wires(wire)
     if len(wire) % partition_size != 0:
         raise pyrtl.PyrtlError("Wire {} cannot be evenly partitioned into items of size {}"
                                .format(wire, partition_size))
